@@ -55,6 +55,11 @@ claim('C12', 'devx',
       'Every assignment of 14 dimensions (Issuer registered/other/unregistered/absent; signature none/valid/bit-flipped/edited-after-signing/foreign key/other SP/stripped; Destination advertised/absent/SSO location/foreign/namespace-prefixed; subject known/other/unknown/absent; 13 requested-attribute list shapes with matching, non-matching and duplicate (Name, NameFormat); 7 user-record shapes; serialisation styles; issuer and endpoint configuration) with <= 2 (quick) / <= 3 (thorough) deviations plus the full product requested-list x user-record. The reference model computes the guard conjunction and the expected attribute multiset from the generator ground truth; the reply is decoded with the harness XML tree and the assertion signature is checked by two independent verifiers.',
       'Signature clause is skipped where signed data contains XML metacharacters (C04 alphabet).', '§5 C12')
 
+claim('C07', 'devx',
+      'pairwise / 3-way and full-sub-product exhaustive enumeration of generator-labelled conformant requests executed on the real handlers',
+      'Only messages the generator labels conformant are judged. AuthnRequest: all pairs (quick) / all triples (thorough) of values of 28 dimensions (prefix style, indentation, XML declaration, quote character, attribute order, optional parts, 0/3/6/9 fractional digits, RelayState incl. spaces and reserved characters, ProtocolBinding, Destination present/absent, Conditions, ACS index, Redirect/POST, signing none/rsa-sha1/rsa-sha256, KeyInfo, certificate text wrapped at 64/76, two independent signer implementations, upper/lower-case percent-encoding, + vs %20, parameter order, SAMLEncoding, SP/IdP signing flags in all xs:boolean spellings, issuer and endpoint configuration, ACS metadata shapes, Host) plus the full product of the 11-dimensional encoding/signing sub-space; LogoutRequest: k<=3 over 12 dims incl. all advertised bindings; AttributeQuery: k<=3 over 12 dims incl. signed queries. Oracle: positive outcome of the matching kind.',
+      'Conformance is the generator notion (SAML core/bindings as cited in DESIGN.md); quirks of particular SP products are outside.', '§5 C07')
+
 NOT_YET = {i: 'check not built yet in this revision (planned: see DESIGN.md §5 %s); not claimed until its machinery exists' % i for i in ids}
 
 def main():
